@@ -55,6 +55,9 @@ Hostname.vos Hostname.vok Hostname.required_vos: Hostname.v Base.vos Fields.vos 
 HostnameProofs.vo HostnameProofs.glob HostnameProofs.v.beautified HostnameProofs.required_vo: HostnameProofs.v Base.vo Fields.vo SrcFacts.vo Msg.vo SrcDecisions.vo Sim.vo Prober.vo Hostname.vo CacheProofs.vo
 HostnameProofs.vio: HostnameProofs.v Base.vio Fields.vio SrcFacts.vio Msg.vio SrcDecisions.vio Sim.vio Prober.vio Hostname.vio CacheProofs.vio
 HostnameProofs.vos HostnameProofs.vok HostnameProofs.required_vos: HostnameProofs.v Base.vos Fields.vos SrcFacts.vos Msg.vos SrcDecisions.vos Sim.vos Prober.vos Hostname.vos CacheProofs.vos
+HostnameInv.vo HostnameInv.glob HostnameInv.v.beautified HostnameInv.required_vo: HostnameInv.v Base.vo Fields.vo SrcFacts.vo Msg.vo SrcDecisions.vo Sim.vo Prober.vo Hostname.vo HostnameProofs.vo
+HostnameInv.vio: HostnameInv.v Base.vio Fields.vio SrcFacts.vio Msg.vio SrcDecisions.vio Sim.vio Prober.vio Hostname.vio HostnameProofs.vio
+HostnameInv.vos HostnameInv.vok HostnameInv.required_vos: HostnameInv.v Base.vos Fields.vos SrcFacts.vos Msg.vos SrcDecisions.vos Sim.vos Prober.vos Hostname.vos HostnameProofs.vos
 Resolver.vo Resolver.glob Resolver.v.beautified Resolver.required_vo: Resolver.v Base.vo Fields.vo SrcFacts.vo Msg.vo SrcDecisions.vo Cache.vo CacheSpec.vo Sim.vo Prober.vo
 Resolver.vio: Resolver.v Base.vio Fields.vio SrcFacts.vio Msg.vio SrcDecisions.vio Cache.vio CacheSpec.vio Sim.vio Prober.vio
 Resolver.vos Resolver.vok Resolver.required_vos: Resolver.v Base.vos Fields.vos SrcFacts.vos Msg.vos SrcDecisions.vos Cache.vos CacheSpec.vos Sim.vos Prober.vos
@@ -139,9 +142,9 @@ Properties_C16.vos Properties_C16.vok Properties_C16.required_vos: Properties_C1
 Properties_C17.vo Properties_C17.glob Properties_C17.v.beautified Properties_C17.required_vo: Properties_C17.v Base.vo Fields.vo SrcFacts.vo Msg.vo SrcDecisions.vo Sim.vo Hostname.vo HostnameProofs.vo
 Properties_C17.vio: Properties_C17.v Base.vio Fields.vio SrcFacts.vio Msg.vio SrcDecisions.vio Sim.vio Hostname.vio HostnameProofs.vio
 Properties_C17.vos Properties_C17.vok Properties_C17.required_vos: Properties_C17.v Base.vos Fields.vos SrcFacts.vos Msg.vos SrcDecisions.vos Sim.vos Hostname.vos HostnameProofs.vos
-Properties_C08.vo Properties_C08.glob Properties_C08.v.beautified Properties_C08.required_vo: Properties_C08.v Base.vo Fields.vo SrcFacts.vo Msg.vo SrcDecisions.vo Sim.vo Hostname.vo HostnameProofs.vo
-Properties_C08.vio: Properties_C08.v Base.vio Fields.vio SrcFacts.vio Msg.vio SrcDecisions.vio Sim.vio Hostname.vio HostnameProofs.vio
-Properties_C08.vos Properties_C08.vok Properties_C08.required_vos: Properties_C08.v Base.vos Fields.vos SrcFacts.vos Msg.vos SrcDecisions.vos Sim.vos Hostname.vos HostnameProofs.vos
+Properties_C08.vo Properties_C08.glob Properties_C08.v.beautified Properties_C08.required_vo: Properties_C08.v Base.vo Fields.vo SrcFacts.vo Msg.vo SrcDecisions.vo Sim.vo Hostname.vo HostnameProofs.vo HostnameInv.vo
+Properties_C08.vio: Properties_C08.v Base.vio Fields.vio SrcFacts.vio Msg.vio SrcDecisions.vio Sim.vio Hostname.vio HostnameProofs.vio HostnameInv.vio
+Properties_C08.vos Properties_C08.vok Properties_C08.required_vos: Properties_C08.v Base.vos Fields.vos SrcFacts.vos Msg.vos SrcDecisions.vos Sim.vos Hostname.vos HostnameProofs.vos HostnameInv.vos
 Properties_C01.vo Properties_C01.glob Properties_C01.v.beautified Properties_C01.required_vo: Properties_C01.v Base.vo Fields.vo SrcFacts.vo Msg.vo Decoder.vo Encoder.vo WireSpec.vo DecoderSafety.vo DecoderComplete.vo EncoderProofs.vo
 Properties_C01.vio: Properties_C01.v Base.vio Fields.vio SrcFacts.vio Msg.vio Decoder.vio Encoder.vio WireSpec.vio DecoderSafety.vio DecoderComplete.vio EncoderProofs.vio
 Properties_C01.vos Properties_C01.vok Properties_C01.required_vos: Properties_C01.v Base.vos Fields.vos SrcFacts.vos Msg.vos Decoder.vos Encoder.vos WireSpec.vos DecoderSafety.vos DecoderComplete.vos EncoderProofs.vos
